@@ -750,7 +750,13 @@ func (w *world) gatedReaders(res *hx.Result) {
 		}
 		if v.cold {
 			if err := w.restart(); err != nil {
-				panic(err)
+				res.Violate("C05/restart-failed:complete", err.Error(), c.seq+"; clean restart after the first branch was delivered")
+				res.Count("gated-reader:"+v.name+":restart-failed", fmt.Sprintf("g%d", vi), true)
+				w.setStores(w.g0, w.g1, content{})
+				if e2 := w.restart(); e2 != nil {
+					panic(e2)
+				}
+				continue
 			}
 			ch = core.GetBlockChain()
 		}
